@@ -207,12 +207,28 @@ Definition report_app (r : report) (x : option (list (option A) * list exps)) : 
   | _, _ => None
   end.
 
+(* append what a chunk produced to the records kept per bandit *)
+Fixpoint report_all (bs : list (sbandit * report)) (q : list (sbandit * option (list (option A) * list exps)))
+  : list (sbandit * report) :=
+  match bs, q with
+  | br :: bs', (b', r) :: q' => (b', report_app (snd br) r) :: report_all bs' q'
+  | _, _ => []
+  end.
+
 (* _offline_test_bandits: a single chunk [0, n).  For a context-free bandit the reported expectations are the
    final arm_to_expectation (one dictionary). *)
 Definition sim_offline (bs : list (sbandit * report)) (test : batch) (orcs : list borc) : list (sbandit * report) :=
   let n := length (b_ds test) in
-  map (fun x => (fst (snd x), report_app (snd (fst x)) (snd (snd x))))
-      (combine bs (sim_query_all (map fst bs) [] (b_cx test) n O n orcs)).
+  report_all bs (sim_query_all (map fst bs) [] (b_cx test) n O n orcs).
+
+(* the end of an online batch: every bandit is updated with the batch (mab.partial_fit) *)
+Fixpoint sim_update_all (bs : list (sbandit * report)) (bt : batch) (orcs : list borc) : list (sbandit * report) :=
+  match bs with
+  | [] => []
+  | (b, r) :: t =>
+      let (b', ok) := sim_update b (b_ds bt) (b_rs bt) (b_cx bt) (snd (hd borc0 orcs)) in
+      (b', if ok then r else None) :: sim_update_all t bt (tl orcs)
+  end.
 
 (* _online_test_bandits_chunks: for every batch, predict (all bandits), then evaluate and partial_fit (all bandits) *)
 Fixpoint sim_online (bs : list (sbandit * report)) (lo : nat) (batches : list batch) (orcs : list (list borc))
@@ -222,12 +238,8 @@ Fixpoint sim_online (bs : list (sbandit * report)) (lo : nat) (batches : list ba
   | bt :: rest =>
       let n := length (b_ds bt) in
       let o := hd [] orcs in
-      let q := sim_query_all (map fst bs) [] (b_cx bt) n lo (lo + n) o in
-      let upd := map (fun x => let '(br, (b', r), oc) := (x : (sbandit * report) * (sbandit * option (list (option A) * list exps)) * borc) in
-                               let (b'', ok) := sim_update b' (b_ds bt) (b_rs bt) (b_cx bt) (snd oc) in
-                               (b'', if ok then report_app (snd br) r else None))
-                     (combine (combine bs q) (o ++ repeat borc0 (length bs))) in
-      sim_online upd (lo + n) rest (tl orcs)
+      let q := report_all bs (sim_query_all (map fst bs) [] (b_cx bt) n lo (lo + n) o) in
+      sim_online (sim_update_all q bt o) (lo + n) rest (tl orcs)
   end.
 
 (* Simulator.run for the bandits [ms]: train everything, then test.  [batches] = [] means offline. *)
